@@ -137,7 +137,8 @@ Emitted(api, x, P, P0) ==
    message (or an aborted connection) *)
 Rejected(P, P0, eof) ==
     /\ P.ok /\ P.rest = <<>> /\ (P.complete \/ eof)
-    /\ \A k \in 1..Len(P.hdrs) : \E j \in 1..Len(P0.hdrs) : P0.hdrs[j].name = P.hdrs[k].name
+    /\ \A k \in 1..Len(P.hdrs) : \/ P.hdrs[k].name = N_content_length       \* the error page is length-framed
+                                  \/ \E j \in 1..Len(P0.hdrs) : P0.hdrs[j].name = P.hdrs[k].name
 
 Judge(raised, out, eof, out0) ==
     LET P == ParseResp(out, eof, FALSE)
